@@ -112,6 +112,39 @@ func VH_heapq_Positions() {
 	}
 }
 
+// VH_heapq_PositionsDeep: a valid heap of n elements installed through Set (no
+// sifting needed), then Remove at the reported position of a chosen element and
+// a second Remove: deep enough for a replacement to rise more than one level.
+func VH_heapq_PositionsDeep() {
+	n := vCase("n")
+	cmp, dir := vPickCmp()
+	t := vNewTracker(n + 2)
+	q := New(cmp).Update(func(e vElem, p int) { t.pos[e.ID] = p })
+	vs := make([]vElem, n)
+	for i := range vs {
+		vs[i] = vElem{vOrd("p"), i}
+		t.p[i] = vs[i].P
+		t.held[i] = true
+	}
+	vAssume(vIsHeapSlice(vs, dir))
+	q.Set(vs)
+	t.check(q, "after Set of a valid heap")
+	for step := 0; step < 2; step++ {
+		var ids []int
+		for id := range t.held {
+			if t.held[id] {
+				ids = append(ids, id)
+			}
+		}
+		id := ids[vChoice("which", len(ids))]
+		e, ok := q.Remove(t.pos[id])
+		vAssert(ok && e.ID == id, "Remove(reported position) removes exactly that element")
+		t.held[id] = false
+		t.check(q, "after deep Remove")
+	}
+	vCover("positions-deep")
+}
+
 func VT_heapq_script() {
 	q := New(vfIntCmp)
 	pos := map[int]int{}
